@@ -129,7 +129,25 @@ def sk_sibling_fills(g):
     return {"classes": {"c1": {"template": [_t(g), use], "data": {}, "inject": []}, "c0": classes["c0"]}, "page": [["comp", "c1", {}, None]], "page_ctx": {}}
 
 
-SKELETONS = [sk_default_in_foreign_context, sk_forwarding, sk_same_name_three_levels, sk_root_chain, sk_slot_in_loop, sk_default_passed_on, sk_sibling_fills]
+def sk_siblings_in_wrapper(g):
+    """two (or three) different components side by side - and once more nested in a fill - inside a wrapper component:
+    for C10 their templates become separate extends-families that must not see each other's blocks"""
+    rng = g.rng
+    classes = {}
+    n = rng.randint(2, 3)
+    for i in range(1, n + 1):
+        classes[f"c{i}"] = {"template": [_t(g), ["slot", ["lit", "a"], {"default": rng.random() < 0.5}, [_t(g)], {}], _t(g)], "data": {}, "inject": []}
+    sib = []
+    for i in range(1, n + 1):
+        body = None if rng.random() < 0.5 else ["fills", [["fill", ["lit", "a"], [_t(g)] + ([["comp", f"c{rng.randint(1, n)}", {}, None]] if rng.random() < 0.4 else []), None, None]]]
+        sib.append(["comp", f"c{i}", {}, body])
+    wrapper = [_t(g)] + sib + [_t(g)]
+    classes = {"c0": {"template": wrapper, "data": {}, "inject": []}, **classes}
+    page = [["comp", "c0", {}, None]] if rng.random() < 0.7 else [_t(g)] + sib
+    return {"classes": classes, "page": page, "page_ctx": {}}
+
+
+SKELETONS = [sk_siblings_in_wrapper, sk_default_in_foreign_context, sk_forwarding, sk_same_name_three_levels, sk_root_chain, sk_slot_in_loop, sk_default_passed_on, sk_sibling_fills]
 
 
 def decorate(g, prog):
